@@ -45,12 +45,12 @@ def enum_cases(ctx):
 
 PAIRS_PER_DOC = 200         # thorough tier: class pairs tried on one document (stratified sample, see class_pairs)
 LEAF_CAP = {'quick': 10, 'thorough': 40}
-FAULT_CLASSES = ['bad_lhs', 'both_receivers', 'both_sources', 'builtin_override', 'cyclic_encapsulation',
+FAULT_CLASSES = ['bad_lhs', 'bare_component', 'both_receivers', 'both_sources', 'builtin_override', 'cyclic_encapsulation',
                  'definition_through_connection', 'duplicate_component', 'duplicate_units', 'incompatible_units',
                  'initial_value_and_equation', 'missing_component', 'missing_variable', 'no_direction_source',
                  'no_direction_target', 'offset_units', 'reaction', 'second_feed', 'two_definitions',
                  'undefined_identifier', 'undefined_number_units', 'undefined_units_reference',
-                 'undefined_variable_units', 'unit_cycle', 'units_in_component', 'verbatim_duplicate']
+                 'undefined_variable_units', 'unit_cycle', 'units_in_component', 'unresolvable_duplicate', 'verbatim_duplicate']
 
 
 def class_pairs(seed, ndocs):
